@@ -22,6 +22,7 @@
 #include <atomic>
 #include <cstdio>
 #include <iostream>
+#include <memory>
 #include <sstream>
 #include <string>
 #include <vector>
@@ -243,6 +244,7 @@ static void do_scan(std::istringstream& in) {
 // ---------------------------------------------------------------------------------------------
 struct Item { unsigned long key; long idx; };
 static std::vector<unsigned char> g_cover;     // g_cover[k] = the pair (k-1,k) of original positions was compared
+static std::atomic<long> g_calls{0}, g_nonadj{0};
 struct SCmp {
     int kind; unsigned long p;
     bool less(unsigned long x, unsigned long y) const {
@@ -255,7 +257,8 @@ struct SCmp {
     }
     bool operator()(const Item& a, const Item& b) const {
         long d = a.idx - b.idx;
-        if (d == 1) g_cover[a.idx] = 1; else if (d == -1) g_cover[b.idx] = 1;
+        g_calls.fetch_add(1, std::memory_order_relaxed);
+        if (d == 1) g_cover[a.idx] = 1; else if (d == -1) g_cover[b.idx] = 1; else g_nonadj.fetch_add(1, std::memory_order_relaxed);
         return less(a.key, b.key);
     }
 };
@@ -273,11 +276,14 @@ static bool parse_cmp(const std::string& w, SCmp& c) {
 static void do_sort(std::istringstream& in) {
     std::string cw; int threads; size_t n; SCmp c;
     if (!(in >> cw >> threads >> n) || !parse_cmp(cw, c) || threads < 1) { std::puts("bad-op"); return; }
-    std::vector<Item> a(n);
+    // exact-size heap block (no vector slack), so that a sanitizer build sees any access outside [begin,end)
+    std::unique_ptr<Item[]> buf(new Item[n]);
+    Item* a = buf.get();
     for (size_t i = 0; i < n; ++i) { if (!(in >> a[i].key)) { std::puts("bad-op"); return; } a[i].idx = (long)i; }
     g_cover.assign(n + 1, 0);
-    std::vector<Item> orig(a);
-    in_arena(threads, [&] { tbb::parallel_sort(a.begin(), a.end(), c); });
+    g_calls = 0; g_nonadj = 0;
+    std::vector<Item> orig(a, a + n);
+    in_arena(threads, [&] { tbb::parallel_sort(a, a + n, c); });
     // monitors: sorted w.r.t. the comparator; permutation of the input (every original index exactly once, keys intact)
     long first_unsorted = -1;
     for (size_t i = 1; i < n; ++i) if (c.less(a[i].key, a[i - 1].key)) { first_unsorted = (long)i; break; }
@@ -291,8 +297,9 @@ static void do_sort(std::istringstream& in) {
     for (size_t i = 0; i < n; ++i) if (a[i].idx != (long)i) { moved = true; break; }
     long uncovered = 0, first_uncovered = -1;
     for (size_t k = 1; k < n; ++k) if (!g_cover[k]) { ++uncovered; if (first_uncovered < 0) first_uncovered = (long)k; }
-    std::printf("sorted=%d first_unsorted=%ld perm=%d moved=%d uncovered=%ld first_uncovered=%ld\n",
-                first_unsorted < 0 ? 1 : 0, first_unsorted, perm ? 1 : 0, moved ? 1 : 0, uncovered, first_uncovered);
+    std::printf("sorted=%d first_unsorted=%ld perm=%d moved=%d uncovered=%ld first_uncovered=%ld calls=%ld nonadj=%ld\n",
+                first_unsorted < 0 ? 1 : 0, first_unsorted, perm ? 1 : 0, moved ? 1 : 0, uncovered, first_uncovered,
+                g_calls.load(), g_nonadj.load());
 }
 
 int main() {
